@@ -7,6 +7,7 @@ import (
 	"os"
 	"path/filepath"
 	"text/template"
+	"unicode/utf8"
 
 	"github.com/gardenbed/charm/ui"
 	auto "github.com/moorara/algo/automata"
@@ -316,6 +317,11 @@ func formatRunes(runes []rune) string {
 	var b bytes.Buffer
 
 	for _, r := range runes {
+		if !utf8.ValidRune(r) {
+			// A surrogate has no rune literal in Go: %q would print the replacement character for every one of them.
+			fmt.Fprintf(&b, "%#x, ", r)
+			continue
+		}
 		fmt.Fprintf(&b, "%q, ", r)
 	}
 
